@@ -25,6 +25,10 @@ typedef struct {
   /*::cexcerpt::dirichlet_mixdchlet::end::*/
 } ESL_MIXDCHLET;
 
+/* Largest <Q> and <K> accepted from user input (mixture Dirichlet files, command lines) */
+#define eslMIXDCHLET_MAXQ   1000
+#define eslMIXDCHLET_MAXK   100000
+
 
 extern ESL_MIXDCHLET *esl_mixdchlet_Create(int Q, int K);
 extern void           esl_mixdchlet_Destroy(ESL_MIXDCHLET *dchl);
